@@ -23,6 +23,8 @@ type T struct {
 	ids  map[string]map[any]int
 	N    int
 	Mute bool
+
+	lastFlush time.Time
 }
 
 func Open(path string) *T {
@@ -94,6 +96,11 @@ func (t *T) emitLocked(ev string, kv []any) {
 	}
 	t.w.Write(b)
 	t.w.WriteByte('\n')
+	if t.seq%64 == 0 || time.Since(t.lastFlush) > 20*time.Millisecond {
+		// keep the file close to the execution: a crash of the code under test must not lose the trace
+		t.w.Flush()
+		t.lastFlush = time.Now()
+	}
 }
 
 func (t *T) Flush() {
